@@ -518,7 +518,7 @@ impl SparqlDatabase {
             } else if o.starts_with("http://") || o.starts_with("https://") {
                 format!("<{}>", o)
             } else {
-                format!("\"{}\"", o)
+                format!("\"{}\"", escape_ntriples_literal(&o))
             };
 
             output.push_str(&format!("{} {} {} .\n", s_str, p_str, o_str));
@@ -615,7 +615,7 @@ impl SparqlDatabase {
                     } else if obj.starts_with("http://") || obj.starts_with("https://") {
                         output.push_str(&format!("<{}>", obj));
                     } else {
-                        output.push_str(&format!("\"{}\"", obj));
+                        output.push_str(&format!("\"{}\"", escape_ntriples_literal(obj)));
                     }
                 }
 
@@ -1253,8 +1253,11 @@ impl SparqlDatabase {
             term.to_string()
         } else if term.starts_with('<') && term.ends_with('>') {
             term[1..term.len() - 1].to_string()
-        } else if term.starts_with('"') && term.ends_with('"') {
-            term[1..term.len() - 1].to_string()
+        } else if term.starts_with('"') {
+            match decode_ntriples_literal(term) {
+                Some((value, rest)) if rest.is_empty() => value,
+                _ => term.trim_matches('"').to_string(),
+            }
         } else {
             term.trim_matches('"').to_string()
         }
